@@ -283,11 +283,16 @@ def search(ctx):
             if (allow, pg) not in objs:
                 objs[(allow, pg)] = (Client(("h", 1), key_prefix=pg, allow_unicode_keys=allow),
                                      PooledClient(("h", 1), key_prefix=pg, allow_unicode_keys=allow),
-                                     HashClient([], key_prefix=pg, allow_unicode_keys=allow, ignore_exc=True))
-            cl, pc, hc = objs[(allow, pg)]
+                                     HashClient([], key_prefix=pg, allow_unicode_keys=allow, ignore_exc=True),
+                                     # `encoding` is the encoding of VALUES: the key rule does not depend on it
+                                     Client(("h", 1), key_prefix=pg, allow_unicode_keys=allow, encoding="utf8"),
+                                     PooledClient(("h", 1), key_prefix=pg, allow_unicode_keys=allow, encoding="latin-1"))
+            cl, pc, hc, cl8, pcl1 = objs[(allow, pg)]
             for site, f in (("Client.check_key", lambda: cl.check_key(k, cl.key_prefix)),
                             ("PooledClient.check_key", lambda: pc.check_key(k)),
-                            ("HashClient._get_client", lambda: hc._get_client(k))):
+                            ("HashClient._get_client", lambda: hc._get_client(k)),
+                            ("Client(encoding='utf8').check_key", lambda: cl8.check_key(k, cl8.key_prefix)),
+                            ("PooledClient(encoding='latin-1').check_key", lambda: pcl1.check_key(k))):
                 n_cls += 1
                 try:
                     v = f()
@@ -325,17 +330,18 @@ def replay(ctx, obj):
         f = [x for x in f if x["site"] == v["site"]]
         print(v["site"], "key", repr(k)[:60], "prefix", repr(p)[:40], "->", f[0]["observed"] if f else "as the specification says", " expected", v["expected"])
         return bool(f)
-    if v.get("site") in ("Client.check_key", "PooledClient.check_key", "HashClient._get_client"):
+    if v.get("site") in ("Client.check_key", "PooledClient.check_key", "HashClient._get_client", "Client(encoding='utf8').check_key",
+                         "PooledClient(encoding='latin-1').check_key"):
         from pymemcache.client.base import Client, PooledClient
         from pymemcache.client.hash import HashClient
         from harness.core import exn_name
         allow = i["allow_unicode_keys"]
         try:
-            if v["site"] == "Client.check_key":
-                cl = Client(("h", 1), key_prefix=p, allow_unicode_keys=allow)
+            if v["site"].startswith("Client"):
+                cl = Client(("h", 1), key_prefix=p, allow_unicode_keys=allow, **({"encoding": "utf8"} if "utf8" in v["site"] else {}))
                 got = ("ok", cl.check_key(k, cl.key_prefix))
-            elif v["site"] == "PooledClient.check_key":
-                got = ("ok", PooledClient(("h", 1), key_prefix=p, allow_unicode_keys=allow).check_key(k))
+            elif v["site"].startswith("PooledClient"):
+                got = ("ok", PooledClient(("h", 1), key_prefix=p, allow_unicode_keys=allow, **({"encoding": "latin-1"} if "latin" in v["site"] else {})).check_key(k))
             else:
                 HashClient([], key_prefix=p, allow_unicode_keys=allow, ignore_exc=True)._get_client(k)
                 got = ("ok", eval(v["expected"])[1])
